@@ -433,4 +433,27 @@ def main(tier, seed):
 
 
 def replay(path):
+    with open(path) as f:
+        rec = json.load(f)
+    c = rec.get("case") or {}
+    if c.get("kind") == "partition-sweep":
+        # the recorded kernel with the recorded worker count on the real coordinator with virtual workers again
+        from harness import vproc
+
+        print("replaying %s\n  %s" % (rec["signature"], rec["what"]))
+        tools = lc.synthetic_env()
+        kernel = lc.analyse_text(c["text"], tools)
+        seq = lc.sequential_result(kernel, tools)
+        with vproc.Replay(kernel, tools, c["nw"], False, threshold=1) as rp:
+            rp.freerun()
+            if rp.c.error is not None or rp.dg is None:
+                print("  the run fails: %r" % (rp.c.error,))
+                return 1
+            res, _ = lc.project_lcds(rp.dg.get_loopcarried_dependencies(), kernel)
+        found = sorted(x["key"][0] for x in res if len(x["key"]) == 1)
+        want = sorted(x["key"][0] for x in seq["result"] if len(x["key"]) == 1)
+        print("  sequential search: cycles of the lines %s\n  %d workers:         cycles of the lines %s" % (want, c["nw"], found))
+        lc.cleanup_synthetic()
+        print("reproduced" if found != want else "not reproduced")
+        return 1 if found != want else 0
     return lc.replay_file(path, "C16")
